@@ -617,6 +617,8 @@ def run_sse(case):
     (connector connected, not cut off, a new connection accepted by the listener) within SSE_K service rounds after
     t + max(timeout, retry): its reconnect timer was restarted no later than t with a duration of either the
     configured timeout or the stream's retry time (milliseconds), so it has expired by then.
+    With "reconn": False the patron is not reconnectable: after the first cut it must not open a new socket during
+    max(timeout, retry) + 2*SSE_K further service rounds.
     case: {"mode": "sse", "timeout": T, "retry": ms, "dt8": eighths of max(T, retry/1000) per round, "cuts": [flavours], "gap": rounds}
     -> (failures, nontrivial, classes)"""
     env.quiet_ioflo()
@@ -642,7 +644,9 @@ def run_sse(case):
 
     try:
         srv.up()
-        patron = hclienting.Patron(store=store, hostname=ha[0], port=ha[1], timeout=T, reconnectable=True)
+        reconn = case.get("reconn", True)
+        classes.add("sse-reconnectable" if reconn else "sse-not-reconnectable")
+        patron = hclienting.Patron(store=store, hostname=ha[0], port=ha[1], timeout=T, reconnectable=reconn)
         patron.open()
         patron.request(method="GET", path="/stream", headers={"Accept": "text/event-stream"})
         t = 0.0
@@ -692,6 +696,25 @@ def run_sse(case):
             t_cut = t
             if old is not None:
                 _wait([old], [], "FIN/RST of cut %d not delivered" % k)
+            if not reconn:
+                # not reconnectable: after the cut off it never opens a new socket on its own, event stream or not
+                for r in range(int(round(period / dt)) + 2 * SSE_K):
+                    t += dt
+                    store.changeStamp(t)
+                    try:
+                        service_round()
+                    except Exception as ex:   # noqa: BLE001
+                        fails.append(("sse-raises:%s@%s" % (type(ex).__name__, _site(ex)), "service round after cut %d raised %r" % (k, ex)))
+                        return fails, True, classes
+                    cs = patron.connector.cs
+                    if (cs is not None and cs is not old) or srv.conns:
+                        fails.append(("reopened-after-cutoff@patron-event-stream",
+                                      "Patron with reconnectable=False on an event stream (timeout %s s, retry %s ms) opened a new "
+                                      "socket %d service rounds after it was cut off (t=%s, cut at %s)" % (T, case["retry"], r + 1, t, t_cut)))
+                        return fails, True, classes
+                if patron.connector.cutoff:
+                    classes.add("sse-nonreconn-stays-cut-off")
+                return fails, bool(patron.connector.cutoff), classes
             deadline_rounds = None
             ok = False
             for r in range(200):
@@ -786,6 +809,7 @@ def sse_cases():
         "dt8": st.sampled_from([1, 2, 4, 8]),
         "cuts": st.lists(st.sampled_from(["fin", "fin", "rst"]), min_size=2, max_size=3),
         "gap": st.integers(0, 3),
+        "reconn": st.sampled_from([True, True, False]),
     })
 
 
